@@ -52,6 +52,7 @@ int parse_size(const char *what, size_t *out, const char *str,
 			goto fail_ov;
 
 		*out /= 100;
+		++diff;
 		break;
 	case '\0':
 		break;
